@@ -7,6 +7,7 @@ import Spade.Parse
 import Spade.Abs
 import Spade.Query
 import Spade.Algo.Locate
+import Spade.Algo.CircIter
 namespace Spade
 
 structure Fail where
@@ -409,7 +410,12 @@ def judge (h : HCtx) (op res : Array String) (dump : Option St) : HCtx × List F
               (fun _ => s!"{res.toList}") ++
             -- R3: the iterator model on the dumped links yields the very same sequence
             chk (fwd == s.hullIter) "C14:model" "hull-iterator-model-differs"
-              (fun _ => s!"model={s.hullIter} impl={fwd}"))
+              (fun _ => s!"model={s.hullIter} impl={fwd}") ++
+            -- the `CircularIterator` state machine translated by T0, drained from either end
+            chk (fwd == s.hullIterFront) "C14:model" "hull-circular-iterator-model-differs"
+              (fun _ => s!"model={s.hullIterFront} impl={fwd}") ++
+            chk (bwd == s.hullIterBack) "C14:model" "hull-back-iterator-model-differs"
+              (fun _ => s!"model={s.hullIterBack} impl={bwd}"))
       | _, _ => bad "result"
     | none => bad "result"
   | "canadd" | "exists" =>
